@@ -62,10 +62,18 @@ class EvalModel:
         self.f_deck = one(lambda t: t.startswith(f"[{CARD}; "), "deck")
         self.deck_len = int(tys[self.f_deck].split(";")[1].strip(" ]"))
         self.f_board = one(lambda t: t.startswith(f"[std::option::Option<{CARD}>; "), "board")
-        self.f_used = one(lambda t: t.startswith(f"std::collections::HashSet<{CARD}"), "used set")
-        self.f_entries = one(lambda t: t == f"std::vec::Vec<{ENTRY_VEC}>", "entry lists")
+        self._used_pred = lambda t: t.startswith(f"std::collections::HashSet<{CARD}")
+        self.f_entries = one(lambda t: t.startswith(f"std::vec::Vec<std::vec::Vec<({CARD_PAIR}, f32"), "entry lists")
+        self.entry_vec_ty = self.iter_field_tys()[self.f_entries][len("std::vec::Vec<"):-1]
         self.f_counters = one(lambda t: t.startswith("std::vec::Vec<u") or t.startswith("std::vec::Vec<i"), "odometer counters")
         self.counter_ty = tys[self.f_counters][len("std::vec::Vec<"):-1]
+
+    @property
+    def f_used(self):
+        c = [i for i, t in enumerate(self.iter_field_tys()) if self._used_pred(t)]
+        if len(c) != 1:
+            raise U("evalmodel", f"the iterator has no single HashSet<Card> of used cards ({len(c)} candidates): blocking is done some other way")
+        return c[0]
 
     def self_field(self, i):
         return ("field", ("deref", ("param", 1)), i)
